@@ -55,6 +55,10 @@ POOL = [
      "params": OrderedDict([("rate", {"typ": "float", "doc": "learning rate used by the optimiser in every step of training", "default": 0.5})]),
      "returns": None},
 ]
+# a str default of several words (a wrap position can fall inside the default value) - used by the wrap_*_ir4 obligations only
+MULTIWORD = {"name": None, "type": "static", "doc": "Short summary",
+             "params": OrderedDict([("banner", {"typ": "str", "doc": "text shown on start-up by the command line front end", "default": "lorem ipsum dolor sit"}),
+                                    ("n", {"typ": "int", "doc": "the n", "default": 3})]), "returns": None}
 MODS = (doctrans.pure_utils, doctrans.emit, doctrans.emitter_utils, doctrans.docstring_utils, doctrans.ast_utils)
 
 
@@ -130,7 +134,7 @@ def ir_diffs(got, want):
 def wrap(kind, i, W, active, opts=None):
     """every emitter succeeds at width W, and parse(wrapped) == parse(unwrapped) modulo whitespace"""
     opts = dict(opts or {})
-    ir = POOL[i]
+    ir = MULTIWORD if i == 4 else POOL[i]
     undo = _bind(W)
     try:
         a_w = emit_kind(ir, kind, dict(opts, word_wrap=True))
@@ -179,6 +183,14 @@ def obligations(tier, seed):
                     timeout=240 if tier == "quick" else 1200, path_timeout=120, funcs=FUNCS,
                     kf=[("KF-C18-long-word-break", "W < 20")] if a < 20 < b else [],
                     skip_kf=(["KF-C18-numpydoc-wrap"] if kind == "numpydoc" else []) + (["KF-C18-long-word-break"] if b <= 20 else [])))
+    for kind in ("rest", "function") if tier == "quick" else ("rest", "google", "function", "class", "argparse"):
+        for a, b in ((20, 201),) if tier == "quick" else ((20, 60), (60, 120), (120, 401)):
+            obs.append(Ob(
+                name="wrap_%s_ir4_w%d" % (kind, a), params=[("W", "int")], pre=["%d <= W < %d" % (a, b)],
+                body="H.wrap(%r, 4, W, {ACTIVE})" % kind, witness=(a + (b - a) // 2,),
+                bounds="every width %d <= W < %d (symbolic int); emitter %s on a description whose str default has several words (a wrap "
+                "position can fall inside the default value); word_wrap on vs off, defaults compared exactly" % (a, b, kind),
+                timeout=240 if tier == "quick" else 1200, path_timeout=120, funcs=FUNCS))
     # the parser's own flag differs from the emitter's: default text written, then stripped from the prose on the way back
     for kind in ("rest", "google") if tier == "quick" else ("rest", "google", "function", "class"):
         for i in (1,) if tier == "quick" else range(len(POOL)):
